@@ -470,7 +470,7 @@ func ruleC15RemovalNotifies(c *Ctx) {
 		o := collectCacheOps(f)
 		for _, d := range o.del {
 			n++
-			ok := f.Name() == "evictItem" || f.Name() == "Delete"
+			ok := removalOwner(u, f, 0)
 			c.check(ok, trimPkgDirs(shortName(f))+"/delete(byKey)", u.ipos(d), "removal in "+f.Name(), "an entry is removed from the map outside evictItem/Delete: it leaves the cache (expiry, replacement, …) without its eviction notification, so whatever the callback releases for it is leaked")
 		}
 		allInstrs(f, func(i ssa.Instruction) {
@@ -485,8 +485,8 @@ func ruleC15RemovalNotifies(c *Ctx) {
 			}
 		})
 	}
-	if n < 3 {
-		c.bad("cache/removals", "", fmt.Sprintf("expected at least 3 removal sites (evictItem, Delete, Close), found %d", n))
+	if n < 2 {
+		c.bad("cache/removals", "", fmt.Sprintf("expected at least 2 removal sites (an entry removal and Close's map drop), found %d", n))
 	}
 }
 
@@ -750,4 +750,210 @@ func isPushHelperCall(i ssa.Instruction) bool {
 		}
 	})
 	return is
+}
+
+// ruleC15LFUBucket: the frequency bucket an item is filed into carries exactly the item's new use count, and that count
+// is 1 for a new item and old+1 otherwise. This is the per-operation invariant behind "LFU evicts the least frequently
+// used entry": an item filed into a bucket of another frequency is ranked as if it had been used that often.
+func ruleC15LFUBucket(c *Ctx) {
+	u := c.U1
+	c.rule("C15.lfu-bucket-matches-count", "lfu: wherever an item's parent is set to a frequency element, that element is either freshly inserted with frequency == the item's new count, or its frequency was compared equal to that count on the way; the new count is 1 for an item without a parent and parent.frequency + 1 otherwise", 1)
+	var lf *ssa.Function
+	for _, nt := range policyImpls(u) {
+		if nt.Obj().Name() == "lfu" {
+			for _, f := range declMethods(u, nt) {
+				// the method that stores item.parent
+				allInstrs(f, func(i ssa.Instruction) {
+					if st, ok := i.(*ssa.Store); ok {
+						if fa, isF := st.Addr.(*ssa.FieldAddr); isF && fieldName(fa.X.Type(), fa.Field) == "parent" {
+							lf = f
+						}
+					}
+				})
+			}
+		}
+	}
+	if lf == nil {
+		c.unresolved("lfu", "the lfu method that assigns item.parent")
+		return
+	}
+	c.FuncsAnalysed[shortName(lf)] = true
+	name := trimPkgDirs(shortName(lf))
+	freqLoadOf := func(v ssa.Value) ssa.Value { // v = e.Value.(*frequencyParent).frequency → e
+		ld, ok := v.(*ssa.UnOp)
+		if !ok || ld.Op != token.MUL {
+			return nil
+		}
+		fa, ok := ld.X.(*ssa.FieldAddr)
+		if !ok || fieldName(fa.X.Type(), fa.Field) != "frequency" {
+			return nil
+		}
+		return elemValueSource(fa.X)
+	}
+	// fresh element with frequency literal == count (direct push, or a helper returning such a push with the count as argument)
+	var freshFreq func(e ssa.Value, depth int) ssa.Value
+	freshFreq = func(e ssa.Value, depth int) ssa.Value {
+		cv, ok := e.(*ssa.Call)
+		if !ok || depth > 2 {
+			return nil
+		}
+		if isListPush(cv) {
+			a := allocOf(unwrapIface(cv.Call.Args[1]))
+			if a == nil {
+				return nil
+			}
+			return litFields(a)["frequency"]
+		}
+		h := staticCallee(cv)
+		if h == nil || h.Blocks == nil || h.Pkg == nil || h.Pkg.Pkg.Path() != pkgCache {
+			return nil
+		}
+		var out ssa.Value
+		okAll := true
+		for _, r := range returnsOf(h) {
+			if len(r.Results) != 1 {
+				return nil
+			}
+			fv := freshFreq(returnedValue(r, 0), depth+1)
+			p, isP := fv.(*ssa.Parameter)
+			if !isP {
+				okAll = false
+				continue
+			}
+			for k, q := range h.Params {
+				if q == p && k < len(callArgs(&cv.Call)) {
+					arg := callArgs(&cv.Call)[k]
+					if out == nil {
+						out = arg
+					} else if out != arg {
+						okAll = false
+					}
+				}
+			}
+		}
+		if !okAll {
+			return nil
+		}
+		return out
+	}
+	n := 0
+	allInstrs(lf, func(i ssa.Instruction) {
+		st, ok := i.(*ssa.Store)
+		if !ok {
+			return
+		}
+		fa, isF := st.Addr.(*ssa.FieldAddr)
+		if !isF || fieldName(fa.X.Type(), fa.Field) != "parent" {
+			return
+		}
+		n++
+		// candidates for the count: the value compared / stored as frequency; all must agree
+		var count ssa.Value
+		bad := ""
+		var visit func(e ssa.Value, facts []Fact, depth int)
+		visit = func(e ssa.Value, facts []Fact, depth int) {
+			if depth > 4 || bad != "" {
+				return
+			}
+			if fv := freshFreq(e, 0); fv != nil {
+				if count == nil {
+					count = fv
+				} else if count != fv {
+					bad = "fresh frequency elements are created with different counts"
+				}
+				return
+			}
+			// existing element: needs `e.frequency != count` false (or == true) among the facts
+			for _, fct := range facts {
+				b, isB := fct.V.(*ssa.BinOp)
+				if !isB || fct.Sub != nil {
+					continue
+				}
+				if !(b.Op == token.NEQ && !fct.True || b.Op == token.EQL && fct.True) {
+					continue
+				}
+				for _, pr := range [][2]ssa.Value{{b.X, b.Y}, {b.Y, b.X}} {
+					if el := freqLoadOf(pr[0]); el != nil && (el == e || sameValueOrPath(el, e)) {
+						if count == nil {
+							count = pr[1]
+						} else if count != pr[1] {
+							bad = "the frequency is compared with a different value than the one new buckets are created with"
+						}
+						return
+					}
+				}
+			}
+			if phi, isPhi := e.(*ssa.Phi); isPhi {
+				for k, x := range phi.Edges {
+					p := phi.Block().Preds[k]
+					fs := append(append([]Fact{}, factsAt(p)...), edgeFacts(p, phi.Block())...)
+					visit(x, fs, depth+1)
+				}
+				return
+			}
+			bad = "an existing frequency element becomes the item's bucket on a path that did not compare its frequency with the item's new count (e.g. a new item joins whatever bucket is at the front): the item is ranked with a use count it does not have and the wrong entry is evicted"
+		}
+		visit(st.Val, factsAt(st.Block()), 0)
+		if bad == "" && count != nil {
+			// the count: phi of const 1 (no parent) and parent.frequency + 1
+			okCount := false
+			if phi, isPhi := count.(*ssa.Phi); isPhi {
+				one, inc := false, false
+				for k, x := range phi.Edges {
+					if kk, isC := constOf(x); isC && kk.ExactString() == "1" {
+						// only on the edge where item.parent is nil
+						p := phi.Block().Preds[k]
+						for _, fct := range append(append([]Fact{}, factsAt(p)...), edgeFacts(p, phi.Block())...) {
+							if y, isNil, okN := nilTest(fct); okN && isNil && parentLoadOf(y) != nil {
+								one = true
+							}
+						}
+					} else if b, isB := x.(*ssa.BinOp); isB && b.Op == token.ADD {
+						if kk, isC := constOf(b.Y); isC && kk.ExactString() == "1" {
+							if el := freqLoadOf(b.X); el != nil && parentLoadOf(el) != nil {
+								inc = true
+							}
+						}
+					}
+				}
+				okCount = one && inc && len(phi.Edges) == 2
+			}
+			if !okCount {
+				bad = "the item's new use count is not `1 for an item without a parent, parent.frequency + 1 otherwise`"
+			}
+		}
+		if count == nil && bad == "" {
+			bad = "no frequency comparison or fresh bucket found for the assigned parent"
+		}
+		c.check(bad == "", name+"/bucket", u.ipos(i), "bucket frequency == new use count on every way in", bad)
+	})
+	if n == 0 {
+		c.bad(name+"/bucket", u.pos(lf.Pos()), "no assignment of item.parent found in lfu")
+	}
+}
+
+// removalOwner: f is evictItem or Delete, or an unexported helper of cache[K,V] every call site of which is in such a function.
+func removalOwner(u *Universe, f *ssa.Function, depth int) bool {
+	if f.Name() == "evictItem" || f.Name() == "Delete" {
+		return true
+	}
+	if depth > 3 || f.Object() == nil || f.Object().Exported() {
+		return false
+	}
+	sites := 0
+	ok := true
+	for _, g := range u.RepoFuncs {
+		if g.Pkg == nil || g.Pkg.Pkg.Path() != pkgCache {
+			continue
+		}
+		allInstrs(g, func(i ssa.Instruction) {
+			if staticCallee(i) == f {
+				sites++
+				if !removalOwner(u, rootFunc(g), depth+1) {
+					ok = false
+				}
+			}
+		})
+	}
+	return sites > 0 && ok
 }
